@@ -700,7 +700,9 @@ type JSONMode struct {
 	// required ("по возможности").
 	Strict bool
 	// NoTL2: the type is generated without TL2; only then does the property demand that a true-typed field given as
-	// false while its mask bit is set be rejected (the primer demands it always).
+	// false while its mask bit is set be rejected (the primer demands it always). The same scoping is applied to a
+	// field given under an outer mask whose bit is 0 (primer: error; the property's reject list does not name it, and a
+	// TL2-enabled object records the field in its own presence bits): with TL2 the reference leaves it undefined.
 	NoTL2 bool
 }
 
@@ -1207,6 +1209,9 @@ func JSONDecFields(d *StructDef, outer []uint32, j *JV, m JSONMode) ([]*Value, e
 			if f.Mask != nil && g != nil {
 				switch {
 				case f.Mask.Src.Kind != NField && !bit && g.B:
+					if !m.NoTL2 {
+						return nil, undef("field %s given explicitly under an outer mask whose bit is 0, type generated with TL2", f.Name)
+					}
 					return nil, reject("field %s given explicitly under an outer mask whose bit is 0", f.Name)
 				case f.Mask.Src.Kind == NField && !bit && g.B:
 					return nil, undef("true field %s given under a local mask field that is itself absent", f.Name)
@@ -1236,6 +1241,11 @@ func JSONDecFields(d *StructDef, outer []uint32, j *JV, m JSONMode) ([]*Value, e
 				if f.Mask.Src.Kind == NField {
 					// a local bit is set by the field's presence; only reachable when the mask field itself cannot exist
 					return nil, undef("field %s given under a local mask field that is itself absent", f.Name)
+				}
+				if !m.NoTL2 {
+					// a TL2-enabled object keeps its own presence bits; property C06 does not list this rejection
+					// and scopes the sibling rule (true given as false) to types without TL2
+					return nil, undef("field %s given explicitly under an outer mask whose bit is 0, type generated with TL2", f.Name)
 				}
 				return nil, reject("field %s given explicitly under an outer mask whose bit is 0", f.Name)
 			}
